@@ -103,6 +103,16 @@ def run(ck):
     er = E.M(lambda t: "__errno_location" in E.mentions(t) and E.strip(t).get("k") == "bin" and E.strip(t).get("op") == "==" and E.const(E.strip(t)["r"]) == 34, "errno == ERANGE")
     ck.require_any("A2.offset-range", po, rt, [(er, False), (E.M(lambda t: "res" in E.mentions(t) and E.strip(t).get("k") == "bin" and E.strip(t).get("op") == "==" and E.const(E.strip(t)["r"]) == (1 << 63) - 1, "res == LLONG_MAX"), False)],
                    "return true", why="(an out-of-range offset would be accepted as LLONG_MAX)")
+    # both saturation values: strtoll() returns LLONG_MIN for a magnitude below -2^63 (with errno == ERANGE), not only LLONG_MAX above 2^63-1
+    res_is = lambda k, name: E.M(lambda t, k=k: "res" in E.mentions(t) and E.strip(t).get("k") == "bin" and E.strip(t).get("op") == "==" and E.const(E.strip(t)["r"]) == k, "res == %s" % name)
+    fl_er = ck.flow(po, track_atoms={"erange": er, "min": res_is(-(1 << 63), "LLONG_MIN"), "max": res_is((1 << 63) - 1, "LLONG_MAX")})
+    for st in ck.sites(fl_er, rt, "return true", 1):
+        if st.tracked("erange") is False or (st.tracked("min") is False and st.tracked("max") is False):
+            ck.ok("A2.offset-range-both-ends", st.where(), "return true only without ERANGE, or with res neither LLONG_MIN nor LLONG_MAX")
+        else:
+            ck.violation("A2.offset-range-both-ends", "A2|httpHeaderParseOffset|saturated-value-accepted", st.where(),
+                         "httpHeaderParseOffset can return true with errno == ERANGE and res not excluded from {LLONG_MIN, LLONG_MAX} (erange=%s min=%s max=%s): a magnitude "
+                         "beyond the int64 range is accepted as the saturated value" % (st.tracked("erange"), st.tracked("min"), st.tracked("max")), fl_er.witness(st))
     d = ck.local_defs(po).get("res", [])
     if d and all(E.strip(t).get("f") in ("strtoll", "strtol") and E.const(E.strip(t)["a"][2]) == 10 for t in d):
         ck.ok("A2.offset-parser", po.where(), "res = strtoll(start, &end, 10)")
